@@ -237,7 +237,7 @@ def parse_expr(s):
 
 
 KEYWORDS = ('spec', 'define', 'axiom', 'lemma', 'func', 'requires', 'ensures', 'assigns', 'allocates',
-            'loop', 'invariant', 'decreases', 'flag', 'ghostvar', 'call', 'import', 'at', 'property', 'end', 'step', 'send', 'guarded', 'uses', 'recv', 'return', 'ghostset')
+            'loop', 'invariant', 'decreases', 'flag', 'ghostvar', 'call', 'import', 'at', 'property', 'end', 'step', 'send', 'guarded', 'uses', 'recv', 'return', 'ghostset', 'store')
 
 
 def _label(s):
@@ -333,6 +333,13 @@ def parse_contract_text(text, fname='?'):
                 m = re.match(r'\s*(\S+)\s+(.*)$', rest, re.S)
                 lab, r = _label(m.group(2))
                 cur.setdefault('calls', []).append((m.group(1), lab, parse_expr(r), r))
+                curloop = None
+            elif kw == 'store':
+                # store <Type.field> [label] expr  -- assertion at every direct store to that field in this function
+                # (target = the object written, newval = the value stored, oldval = the field's value just before)
+                m = re.match(r'\s*(\S+)\s+(.*)$', rest, re.S)
+                lab, r = _label(m.group(2))
+                cur.setdefault('stores', []).append((m.group(1), lab, parse_expr(r), r))
                 curloop = None
             elif kw == 'send':
                 # send <channel variable> [label] expr   -- assertion on every message sent on that channel (msg = the message)
